@@ -15,6 +15,7 @@ Shared pieces of the C01 check (library round trip):
 """
 from __future__ import annotations
 
+import copy
 import math
 import os
 import signal
@@ -492,13 +493,77 @@ def load(kind: str, path: Path, keys: list) -> dict:
     return out
 
 
+def mutate_in_place(obj):
+    """the caller edits an object it got from the library: name, charge, multiplicity, attributes, coordinates, partial
+    charges, weights, first atom (label, isotope, attributes), first bond (type, order, label) - all through public attributes"""
+    edits = [
+        lambda: setattr(obj, "name", "edited"),
+        lambda: setattr(obj, "charge", (obj.charge or 0) + 3),
+        lambda: setattr(obj, "mult", (obj.mult or 1) + 1),
+        lambda: obj.attrib.__setitem__("tag", "edited"),
+        lambda: obj.coords.__setitem__(Ellipsis, 99.0),
+        lambda: obj.atomic_charges.__setitem__(Ellipsis, -7.0),
+        lambda: obj.weights.__setitem__(Ellipsis, 5.0),
+        lambda: setattr(obj.atoms[0], "label", "XX"),
+        lambda: setattr(obj.atoms[0], "isotope", 99),
+        lambda: obj.atoms[0].attrib.__setitem__("tag", "edited"),
+        lambda: setattr(obj.bonds[0], "btype", 3 if int(obj.bonds[0].btype) != 3 else 2),
+        lambda: setattr(obj.bonds[0], "f_order", 7.5),
+        lambda: setattr(obj.bonds[0], "label", "YY"),
+    ]
+    for e in edits:
+        try:
+            e()
+        except Exception:  # noqa: BLE001   (no weights on a molecule, no atoms, no bonds ...)
+            pass
+
+
+def load_twice(kind: str, path: Path, keys: list):
+    """every key is read, the object returned is recorded (snapshot) and then EDITED IN PLACE by the caller, and the key is
+    read again from the same library object in the same reading() session; the last key is, after another caller-side
+    edit, read a third time in a second reading() session of the same object.
+    Returns ({key: snapshot of the first read | exception}, {key: object of the latest read | exception})."""
+    firsts, out = {}, {}
+    with hard_timeout(SESSION_TIMEOUT + 0.1 * len(keys), "reading sessions"):
+        lib = lib_class(kind)(path)
+        last = None
+        with lib.reading(timeout=SESSION_TIMEOUT):
+            listed = set(lib.keys())
+            for k in keys:
+                if k not in listed:
+                    firsts[k] = out[k] = KeyError(k)
+                    continue
+                try:
+                    o1 = lib[k]
+                    firsts[k] = copy.deepcopy(snapshot(o1))     # a record of its own: the object is edited next
+                    mutate_in_place(o1)
+                    out[k] = lib[k]
+                    last = k
+                except HardTimeout:
+                    raise
+                except Exception as e:  # noqa: BLE001
+                    firsts.setdefault(k, e)
+                    out[k] = e
+        if last is not None and not isinstance(out[last], Exception):
+            mutate_in_place(out[last])
+            with lib.reading(timeout=SESSION_TIMEOUT):
+                try:
+                    out[last] = lib[last]
+                except HardTimeout:
+                    raise
+                except Exception as e:  # noqa: BLE001
+                    out[last] = e
+    return firsts, out
+
+
 def run_script(kind: str, path: Path, version: int, objs: list, script: list, bufsize: int):
     """ONE long-lived library object goes through the sessions of `script`:
-         script = [(mode, [(op, i), ...]), ...]   mode 'w' = writing(), 'r' = reading(); op 'put' | 'get' | 'keys'
+         script = [(mode, [(op, i), ...]), ...]   mode 'w' = writing(), 'r' = reading(); op 'put' | 'get' | 'edit' | 'keys'
        record i is stored under key f"k{i}".  Returns the observations [(session, position, op, i, result)]
        (result: the object read / sorted key list / None for a put / the exception raised)."""
     new_library_file(kind, path, version)
     obs = []
+    got = {}
     n_ops = sum(len(ops) for _, ops in script)
     with hard_timeout(SESSION_TIMEOUT + 0.1 * n_ops, "mixed sessions"):
         lib = lib_class(kind)(path, readonly=False, bufsize=bufsize)
@@ -511,7 +576,14 @@ def run_script(kind: str, path: Path, version: int, objs: list, script: list, bu
                                 lib[f"k{i}"] = objs[i]
                                 res = None
                             elif op == "get":
-                                res = lib[f"k{i}"]
+                                got[i] = lib[f"k{i}"]
+                                res = copy.deepcopy(snapshot(got[i]))   # what this read returned, recorded before the caller edits it
+                            elif op == "edit":
+                                # the caller edits, in place, the object its latest read of k{i} returned;
+                                # the observation of that read was taken (snapshot) before
+                                res = None
+                                if i in got:
+                                    mutate_in_place(got[i])
                             else:
                                 res = sorted(lib.keys())
                         except HardTimeout:
